@@ -3,17 +3,92 @@
 Proof: Props/C18.lean over Model/Block.lean (the wake-up protocol: register first, one-place
 wake-up buffer, non-blocking notify, rescan after every wake-up): a waiter only sleeps when it has
 looked at every key after the last push to it; a push step is always enabled; null only from an
-armed timer. Tie: the wake-up steps the real code reports (register, try, block, wake, timeout,
-notify, unregister) must be steps of the model (`bev` lines; the same runs also validate the locking
-protocol trace, `pev` lines). Search: the `bpop` scenario on the real code - immediate pops (first
+armed timer. Below it, Model/BlockProg.lean is the CODE of blockingPop / addBlockKeys / removeBlockingKeys /
+notifyBlockingKey and the push around it as an interleaving semantics (pcs, one transition per mutex / channel
+operation); Props/C18.lean §9 proves that every schedule emits a run of the protocol (`blockprog_refines_block`), that
+the hook-call order is a run of the token-counting relation (`blockprog_hook_order_refines_loose`), and on program
+states: no missed wake-up from the push side, unregistration on every exit path (panic included), no lock held while
+blocked. Tie: the wake-up steps the real code reports (register, try, block, wake, timeout,
+notify, unregister) must be steps of the protocol model AND the next event of the corresponding thread of the
+program model (`bev` / `bpp` lines: registry lock discipline, cList order, loop structure; a self-test keeps the
+replay from becoming vacuous); the same runs also validate the locking protocol trace (`pev` lines). Search: the `bpop` scenario on the real code - immediate pops (first
 key, correct end), timeouts (whole and fractional seconds, over TCP), timeout 0, BRPOP woken by a
 multi-element push, hand-off of 24 elements to 5 waiters with short timeouts while pushes arrive
 over the embedded API and over TCP (each element exactly once, pushes prompt and never an error)."""
+import subprocess
+import vlib
 from checks import conc
+
+# the replay of the `bev` trace against the PROGRAM model (Model/BlockProg.lean, Driver/BlockProgOps.lean) must not be
+# vacuous: a hand-written accepted trace, and variants that the protocol model accepts but the code cannot produce
+_GOOD = """bpp call 1 0 a b
+bev reg 1 a
+bev reg 1 b
+bev try 1 a 0
+bev try 1 b 0
+bev block 1 0
+bpp call 3 1 b
+bev reg 3 b
+bev try 3 b 0
+bev block 3 1
+bpp b 2 b
+bev notify 3 b
+bev notify 1 b
+bpp e 2 b
+bev wake 3
+bev try 3 b 1
+bev unreg 3 b
+bev wake 1
+bev try 1 a 0
+bev try 1 b 0
+bev block 1 0""".split("\n")
+
+
+def _variants():
+    g = _GOOD
+    yield "accepted", g, None
+    # a round that ends without offering a wake-up to a registered waiter
+    v = [l for l in g if l != "bev notify 1 b"]
+    yield "round-skips-a-waiter", v, v.index("bpp e 2 b")
+    # wake-ups offered in another order than the cList (most recent registration first)
+    v = list(g); i = v.index("bev notify 3 b"); v[i], v[i + 1] = v[i + 1], v[i]
+    yield "round-out-of-list-order", v, i
+    # a registration inside a wake-up round (the registry lock is held shared)
+    v = [l for l in g if " 3 " not in l + " " or l.startswith("bpp b")]
+    i = v.index("bpp b 2 b"); v[i + 1:i + 1] = ["bpp call 3 1 b", "bev reg 3 b"]
+    yield "registration-inside-a-round", v, i + 2
+    # a wake-up round inside a registration (the registry lock is held exclusively)
+    v = list(g); i = v.index("bev reg 1 b"); v[i:i] = ["bpp b 9 a"]
+    yield "round-inside-a-registration", v, i
+    # unregistration out of argument order (the non-waiting form: no element, no wait)
+    v = ["bpp call 5 -1 x y", "bev reg 5 x", "bev reg 5 y", "bev try 5 x 0", "bev try 5 y 0", "bev abort 5",
+         "bev unreg 5 y", "bev unreg 5 x"]
+    yield "unreg-out-of-order", v, 6
+
+
+def replay_selftest(ctx):
+    for name, lines, want in _variants():
+        p = subprocess.run([f"{vlib.LEAN}/.lake/build/bin/driver"], input="\n".join(lines) + "\n", capture_output=True, text=True, timeout=120)
+        out = p.stdout.split("\n")[:len(lines)]
+        bad = [j for j, o in enumerate(out) if o != "ok"]
+        got = bad[0] if bad else None
+        ctx.cov["evaluations"] += 1
+        ctx.cov["distribution"][f"replay-selftest:{name}"] = ctx.cov["distribution"].get(f"replay-selftest:{name}", 0) + 1
+        ok = got == want and (want is None or out[want].startswith("rejected-prog"))
+        if not ok:
+            vlib.record_violation(ctx, "protocol-trace", {
+                "scenario": "replay-selftest:" + name, "expected_first_rejection": want, "got": got,
+                "driver_says": out[got] if got is not None else "ok", "ops": lines,
+                "explain": "the replay of blocking-pop traces against the program model (Model/BlockProg.lean) no longer separates a trace the code can produce from one it cannot"},
+                no_input=True)
+            return False
+    return True
 
 
 def run(ctx, proofs_ok):
     q = ctx.tier == "quick"
+    if not replay_selftest(ctx):
+        return
     plan = [("bpop", 3 if q else 12, w) for w in ((0, 30) if q else (0, 10, 30, 60))]
     # a waiter is woken whatever blocking pops came and went before it (fresh instance per history x number of waiters)
     plan.append(("bpop-history", 1 if q else 6, 0))
